@@ -1,8 +1,14 @@
 // Kani harnesses for src/internal/codepage.rs (child module `vk`)
 use super::*;
 
+pub fn stub_format(_args: core::fmt::Arguments<'_>) -> String {
+    String::new()
+}
+
 // @harness name=codepage_id_inverse kind=Pc tier=quick props=C14,C01,C02 desc="for every i32 id: from_id(id) is Some(cp) with cp.id() == id, except id 0 which maps to the default page (UTF-8, 65001); for every code page cp: from_id(cp.id()) == Some(cp); exactly the 26 documented identifiers (and 0) are accepted"
 #[kani::proof]
+#[kani::stub(alloc::fmt::format, stub_format)]
+#[kani::unwind(28)]
 fn codepage_id_inverse() {
     let id: i32 = kani::any();
     match CodePage::from_id(id) {
@@ -32,6 +38,8 @@ fn same(a: &'static encoding_rs::Encoding, b: &'static encoding_rs::Encoding) ->
 
 // @harness name=codepage_wiring kind=Pc tier=quick props=C14 desc="encoding() of each non-ASCII page is (pointer-equal to) the encoding_rs table that the identifier and documentation name designate: 932 SHIFT_JIS, 936 GBK, 949 EUC_KR (=UHC), 950/951 BIG5, 1250..1258 WINDOWS_125x, 10000 MACINTOSH, 10007 X_MAC_CYRILLIC, 28592..28598 ISO_8859_2..8, 65001 UTF_8; 28591 -> WINDOWS_1252 (encoding_rs has no separate ISO-8859-1; accepted, see assumptions)"
 #[kani::proof]
+#[kani::stub(alloc::fmt::format, stub_format)]
+#[kani::unwind(2)]
 fn codepage_wiring() {
     let id: i32 = kani::any();
     if let Some(cp) = CodePage::from_id(id) {
